@@ -216,6 +216,12 @@ def _main(a, prop, seed, t0):
                             known_findings_printed=[k for k, _ in known_lines]),
               assumptions=trusted + list(getattr(mod, 'ASSUMPTIONS', [])),
               wall_s=round(wall, 2), violations=len(violations))
+    if getattr(mod, 'EVIDENCE_LEVEL', None) == 'exploration' and rt:
+        # only a part of the property is under deductive contracts: the property as a whole is claimed at the bounded level; the discharged obligations are reported as extra keys
+        ev['level'] = 'exploration'
+        for k_ in ('evaluations', 'distinct_nontrivial', 'rule', 'samples'): ev['coverage'][k_] = rt['coverage'].get(k_)
+        ev['coverage']['explanation'] = ('property claimed at the bounded level (runtime contracts on generated inputs); in addition the listed obligations on the functions under contract '
+                                         'are discharged deductively on every run (keys obligations/discharged/functions_under_contract)')
     os.makedirs(os.path.join(ROOT, 'evidence'), exist_ok=True)
     if not a.only:
         json.dump(ev, open(os.path.join(ROOT, 'evidence', f'{prop}.json'), 'w'), indent=1, default=str)
